@@ -279,6 +279,100 @@ let judge _id (c : cursor) (r : cursor) : bool * string =
     if is_pomdp then List.iteri (fun s1 row -> if not (vec_eq row (orow pmd (nat_of_int s1) a)) then disagree "stored_observation_row" site "differ") orows_i;
     (ns > 1, "sr." ^ variant)
     end
+  (* ------------------------------------------------------------------ joint (s1,o) frequencies, engine independence *)
+  | "sorfreq" ->
+    let variant = next c in
+    let ns = next_int c in let na = next_int c in let no = next_int c in
+    let rec take k f = if k = 0 then [] else let x = f () in x :: take (k - 1) f in
+    let vecn n = take n (fun () -> next_q c) in
+    let p_in = take na (fun () -> take ns (fun () -> vecn ns)) in
+    let _r_in = take ns (fun () -> vecn na) in
+    let ob_in = take na (fun () -> take ns (fun () -> vecn no)) in
+    let s = next_int c in let a = next_int c in let n = next_int c in
+    let site = "POMDP<" ^ variant ^ ">" in
+    if (not (at_end r)) && is_crash (peek r) then oracle_fail "no_UB" site "abnormal termination";
+    let same = next_int r in
+    let trow_i = next_qs r in
+    let orows_i = take ns (fun () -> next_qs r) in
+    let n_i = next_int r in let lockstep = next_int r in let bad = next_int r in
+    let counts = next_ints r in
+    if n_i <> n || List.length counts <> ns * no then failwith "sorfreq: shape";
+    (* O: the observation draw must not repeat the next-state draw: the two engines of the model are
+       distinct streams (different Seeder draws), whatever constructor built it *)
+    if bad > 0 then oracle_fail "sample_sor_in_range" (site ^ "::sampleSOR") "out-of-range sample";
+    (* O: joint frequencies: the s1 marginal follows T(s,a,.), and GIVEN s1 the observation follows O(s1,a,.)
+       (6 sigma + 2 binomial bounds; seeds are fixed by the case, so the verdict is reproducible) *)
+    let within cnt tot pq =
+      let pf = float_of_q pq in
+      if q_eq pq q_zero then cnt = 0 else if q_eq pq q_one then cnt = tot else
+      Float.abs (float_of_int cnt -. float_of_int tot *. pf) <= 6.0 *. Float.sqrt (float_of_int tot *. pf *. (1.0 -. pf)) +. 2.0 in
+    List.iteri (fun s1 pt ->
+        let cs = List.filteri (fun k _ -> k / no = s1) counts in
+        let tot = List.fold_left (+) 0 cs in
+        if not (within tot n pt) then oracle_fail "sample_sr_follows_model" (site ^ "::sampleSOR")
+            ("next state " ^ string_of_int s1 ^ " drawn " ^ string_of_int tot ^ "/" ^ string_of_int n ^ " times, table says " ^ string_of_q pt);
+        List.iteri (fun o cnt ->
+            let po = List.nth (List.nth orows_i s1) o in
+            if not (within cnt tot po) then oracle_fail "sample_sor_follows_model" (site ^ "::sampleSOR")
+                ("given next state " ^ string_of_int s1 ^ " observation " ^ string_of_int o ^ " was drawn " ^ string_of_int cnt ^ "/" ^ string_of_int tot ^ " times, the observation table says " ^ string_of_q po)) cs)
+      trow_i;
+    if lockstep > 1 then oracle_fail "sample_sor_follows_model" (site ^ "::sampleSOR")
+        (string_of_int lockstep ^ " of " ^ string_of_int n ^ " samples used the same draw for next state and observation");
+    if same = 1 then oracle_fail "sample_sor_follows_model" (site ^ "::constructor")
+        "the MDP layer's engine and the POMDP layer's engine are in the same state after construction: sampleSOR draws the observation with the next-state draw";
+    (* C: the tables the getters return are the tables of the case *)
+    if not (vec_eq trow_i (List.nth (List.nth p_in a) s)) then disagree "stored_transition_row" site "differ";
+    List.iteri (fun s1 row -> if not (vec_eq row (List.nth (List.nth ob_in a) s1)) then disagree "stored_observation_row" site "differ") orows_i;
+    (ns > 1 && no > 1, "sorfreq." ^ variant)
+  (* ------------------------------------------------------------------ CooperativeModel *)
+  | "coop" ->
+    let sz = next_nats c in let az = next_nats c in
+    let nf = List.length sz in
+    let rec take k f = if k = 0 then [] else let x = f () in x :: take (k - 1) f in
+    let tables = take nf (fun () ->
+        let _agents = next_nats c in let npa = next_int c in
+        let _parents = take npa (fun () -> next_nats c) in
+        next_qs c) in
+    let nb = next_int c in
+    let bases = take nb (fun () -> let tag = next_nats c in let atag = next_nats c in let vals = next_qs c in (tag, atag, vals)) in
+    let s = next_nats c in let a = next_nats c in let us = next_qs c in
+    let site = "CooperativeModel" in
+    if (not (at_end r)) && is_crash (peek r) then oracle_fail "no_UB" site "abnormal termination";
+    (* reward tables as matrices: rows = prod S[tag], cols = prod A[atag] *)
+    let space_of keys space = List.fold_left (fun acc k -> acc * ni (List.nth space (ni k))) 1 keys in
+    let rec chunk k l = if l = [] then [] else (List.filteri (fun i _ -> i < k) l) :: chunk k (List.filteri (fun i _ -> i >= k) l) in
+    let mbases = List.map (fun (tag, atag, vals) -> ((tag, atag), chunk (space_of atag az) vals)) bases in
+    let exp_rews = coop_rewards sz az mbases s a in
+    let exp_rew = coop_reward sz az mbases s a in
+    (* the model's own rows *)
+    let rows = take nf (fun () -> next_qs r) in
+    List.iteri (fun i row ->
+        let w = ni (List.nth sz i) in
+        if List.length row <> w then failwith "coop: row width";
+        if not (List.exists (fun cand -> vec_eq cand row) (chunk w (List.nth tables i))) then disagree "coop_row" site "the row selected by the DDN is not a row of the feature's table") rows;
+    let erew = next_q r in
+    if not (q_eq erew exp_rew) then oracle_fail "coop_reward_table" (site ^ "::getExpectedReward") ("getExpectedReward " ^ string_of_q erew ^ " is not the sum of the reward table entries " ^ string_of_q exp_rew);
+    let chk_next site us_req =
+      let dr = next_qs r in let s1 = next_list r next_idx in
+      List.iter2 check_replay us_req dr;
+      if List.length s1 <> nf then oracle_fail "coop_next_in_range" site "wrong number of features";
+      List.iteri (fun i k ->
+          let row = List.nth rows i in let u = List.nth dr i in
+          if k < 0 || k >= ni (List.nth sz i) then oracle_fail "coop_next_in_range" site ("feature " ^ string_of_int i ^ " = " ^ idx_str k ^ " out of range");
+          if not (dense_selb row u (nat_of_int k)) then oracle_fail "sample_sr_follows_model" site ("feature " ^ string_of_int i ^ " = " ^ string_of_int k ^ " outside its interval of the model's own row for u=" ^ string_of_q u)) s1;
+      let m1 = coop_next rows dr in
+      if List.map ni m1 <> s1 then disagree "coop_next" site "model/impl differ" in
+    let part k = List.filteri (fun i _ -> i / nf = k) us in
+    chk_next (site ^ "::sampleSR") (part 0);
+    let rew = next_q r in
+    if not (q_eq rew exp_rew) then oracle_fail "coop_reward_table" (site ^ "::sampleSR") ("reward " ^ string_of_q rew ^ " is not the sum of the reward table entries " ^ string_of_q exp_rew);
+    let chk_rews site =
+      let rews = next_qs r in
+      if not (vec_eq rews exp_rews) then oracle_fail "coop_reward_table" site
+          ("per-basis rewards " ^ str_qs rews ^ " are not the entries of the model's reward tables " ^ str_qs exp_rews ^ " (sampleSR gives " ^ string_of_q rew ^ ")") in
+    chk_next (site ^ "::sampleSRs") (part 1); chk_rews (site ^ "::sampleSRs");
+    chk_next (site ^ "::sampleSRs(ptr)") (part 2); chk_rews (site ^ "::sampleSRs(ptr)");
+    (nf > 1 || nb > 1, "coop")
   | k -> failwith ("unknown case kind " ^ k)
 
 let () = main_loop judge
